@@ -149,7 +149,11 @@ impl Http1Parser {
 
             if header_name_lower == "cookie" {
                 if let Some(ref value) = header.value {
-                    cookie_header_value = Some(value.clone());
+                    // Several Cookie header fields form one cookie list (cf. RFC 7540 8.1.2.5)
+                    cookie_header_value = Some(match cookie_header_value.take() {
+                        Some(previous) => format!("{previous}; {value}"),
+                        None => value.clone(),
+                    });
                 }
             } else if header_name_lower == "referer" {
                 if let Some(ref value) = header.value {
